@@ -30,6 +30,7 @@ func init() {
 			"(1) span rule: every reported line must lie inside the line span the renderer recorded for the innermost executing statement/header (reference interpreter supplies which statement), and equal it for one-line statements; " +
 			"(2) line-shift law: the same rendering with whole lines inserted (blank, -- comments, multi-line --[[ ]] blocks) must shift every reported number by exactly the token shift; " +
 			"(3) getlocal/getupvalue enumerate exactly the model's named variables in scope (declaration order for locals) with current values, setlocal changes exactly that variable; " +
+			"added shapes: failing statements whose first instruction fails (operands are locals) directly after and/or statements; vararg functions with parameters (setlocal on a parameter, read-back); probe2 = metamethod handlers (__add __index __concat __unm __lt __call __newindex) and for-in iterators enumerate the locals of the frame stopped at the invoking instruction; " +
 			"non-trivial = >=3 position events and >=1 variable enumeration; distinct by source hash",
 		Assumptions: []string{
 			"the renderer's token->line map is the ground truth for positions",
